@@ -53,13 +53,19 @@ checks = {
  "C09": ("E-FILE", "exploration", "runtime monitoring: file mutation sweep with a reference identification rule + before/after file comparison; read-only call matrix in child processes",
          "Valid arena files are mutated (identification bytes x 256 values, truncation to every short length, arbitrary bytes) and opened with every variant x expectation; the verdict is compared with a small reference of the identification rule and the file bytes are compared after every refused, read-only or private open. Every safe mutator (+clear, truncate) is called on read-only arenas of both flavours and both read-only variants: ReadOnly or the documented panic, state and file unchanged, no crash.",
          "The reference rule is the harness' reading of the statement; remove_on_drop belongs to C13.", "§4 C09"),
+ "C02": ("E-SCHED", "exploration", "runtime monitoring: hook-serialised schedule fuzzer (random / PCT / window sweep) with shadow-map, pattern and trace-rule monitors; free-running runs under ASan/TSan/Miri in thorough",
+         "2..4 real threads run generated programs on clones of one sync::Arena; the wrapper atomics' callback is the yield point of a token scheduler, so every execution is a replayable total order of the crate's atomic accesses and the monitors may inspect global state between any two of them: no two live handles overlap, every handle inside the data area, the bytes of every live handle are re-verified at every operation boundary of any thread, and no atomic write or zeroing by the arena may land in a range that is live for another owner. Family A (byte allocations) and family B (typed/aligned too) are run separately.",
+         "Sampled schedules; the serialised executions are sequentially consistent (weak-memory effects are left to C12's Miri runs).", "§3 E-SCHED, §4 C02"),
+ "C07": ("E-SCHED", "exploration", "runtime monitoring: bounded-progress monitor over scheduler-controlled executions (logical step budget, fair descheduling of spinning threads)",
+         "C07 is decided in its bounded-progress restatement: in a serialised execution, once every other thread is finished, parked or itself spinning, a call must complete within B = (maximum_retries+1) x (capacity/8+2) x 8 atomic accesses; the monitor counts accesses since the last successful write in the whole system, deschedules threads that spin, and reports a violation (with the free-list snapshot and the last events) when every unfinished thread has exceeded B. Programs keep, detach and leak allocations and let threads exit early. Removed-marked nodes still linked at quiescence are reported too.",
+         "No finite run decides unbounded liveness: starvation under unfair schedules is out of reach for this technique family; B is computed from the configuration, not from wall-clock time; watchdog firings of free-running children are sightings, never verdicts.", "§4 C07"),
+ "C12": ("E-SCHED+TSAN+MIRI", "exploration", "runtime monitoring: vector-clock happens-before monitor over the reported memory orderings + ThreadSanitizer on free-running threads + Miri data-race detection",
+         "Three observers: (1) M-hb builds vector clocks from the Ordering arguments the code actually passes (release sequences, failed-CAS orderings) and checks every zeroing event and hand-out of a previously released byte against the releasing thread's clock, and the backing-store free against every other thread's last access; atomic reads/writes of bytes that are user data are reported by the trace rule; (2) ThreadSanitizer runs the same programs with truly parallel threads whose buffer accesses are plain; (3) Miri runs small programs with its data-race detector and weak-memory emulation.",
+         "M-hb is exact only for the serialised executions produced; Miri programs are small (<=14 operations per thread); TSan understands only synchronisation it intercepts (all of it here is std/core atomics).", "§4 C12"),
 }
 
 not_applicable = {
- "C02": "check under construction (E-SCHED schedule fuzzer); not yet claimed",
  "C06": "check under construction (crash-point sweep); not yet claimed",
- "C07": "check under construction (bounded-progress monitor); not yet claimed",
- "C12": "check under construction (vector-clock monitor + TSan/Miri); not yet claimed",
 }
 
 def main():
@@ -81,6 +87,8 @@ def main():
         {"name": "E-CKSUM", "path": "harness/src/readers.rs", "serves_properties": ["C19"], "kind_free_text": "checksum sweep with two checksummers"},
         {"name": "E-ISO", "path": "harness/src/iso.rs", "serves_properties": ["C04"], "kind_free_text": "isolated case runner (child process per shard, AT markers, catch_unwind, exit-status classification)"},
         {"name": "E-FILE", "path": "harness/src/files.rs", "serves_properties": ["C09"], "kind_free_text": "file mutation sweep + read-only call matrix"},
+        {"name": "E-SCHED", "path": "harness/src/sched.rs", "serves_properties": ["C02","C07","C12","C13"], "kind_free_text": "hook-serialised schedule fuzzer with online monitors (shadow map, trace rule, progress, vector clocks, refs)"},
+        {"name": "E-FREE", "path": "harness/src/free.rs", "serves_properties": ["C02","C07","C12","C13"], "kind_free_text": "free-running parallel stress for rel/ASan/TSan/Miri builds; delays injected from the hook without locks"},
       ],
       "checks": [],
       "not_applicable": [{"property_id":k,"reason":v} for k,v in sorted(not_applicable.items()) if k not in checks],
